@@ -219,7 +219,7 @@ class IoRead(OpSpec):
             out.fail(prop, inv, m)
         if fired:
             out.probes.append("read_returned_despite_fault")
-        meta = dict(keys=den.get("keys", 4), read_from=path)
+        meta = dict(keys=den.get("keys", 4), read_from=path, read_layout=layout, lineage_layout=layout)
         root = fs.lineage.get(path)
         meta["lineage"] = root
         meta["lineage_game"] = op["game"]
@@ -395,3 +395,4 @@ def twin_write(sess, game, A, B, op):
 from . import files_osu  # noqa: E402,F401
 from . import files_qua  # noqa: E402,F401
 from . import files_sm  # noqa: E402,F401
+from . import files_bms  # noqa: E402,F401
